@@ -1596,15 +1596,21 @@ class Machine:
             meta_items, visual_items = [], []
         import regions
         what = f'{cls}({field}={value})' if invalid else f'{cls}(valid)'
-        out, res = self.c17_outcome(lambda: getattr(regions, cls)(**kw),
-                                    invalid, what, cls, field, value)
+        if rng.chance(0.4):
+            # the same call with the shape parameters given positionally
+            order = [f for f, _ in fields]
+            pos = [kw.pop(f) for f in order]
+            call = lambda: getattr(regions, cls)(*pos, **kw)  # noqa
+        else:
+            call = lambda: getattr(regions, cls)(**kw)  # noqa
+        out, res = self.c17_outcome(call, invalid, what, cls, field, value)
         self.ev(cls=cls, invalid=invalid, field=field, value=value,
                 outcome=out)
         if out == 'rejected':
             return
         m = MRegion(cls, toks, MDict('meta', items_to_model(meta_items)),
                     MDict('visual', items_to_model(visual_items)))
-        m.stored = dict(kw)
+        m.stored = {}
         if out == 'wrongly-accepted':
             m.tainted.add(field)
             for p in field.split('/'):
@@ -1792,7 +1798,8 @@ class Machine:
         entry = rng.pick(['setitem', 'update_map', 'update_pairs',
                           'update_kw', 'setdefault', 'ior', 'ctor_map',
                           'ctor_pairs', 'ctor_kw', 'fromkeys', 'update_meta',
-                          'update_obj', 'ior_obj', 'ctor_obj'])
+                          'update_obj', 'ior_obj', 'ctor_obj',
+                          'update_map_kw', 'ctor_map_kw'])
         if d is None and not entry.startswith(('ctor', 'fromkeys')):
             entry = rng.pick(['ctor_map', 'ctor_pairs', 'ctor_kw',
                               'fromkeys'])
@@ -1802,9 +1809,10 @@ class Machine:
             items.insert(pos, [badk, 1])
         if not items:
             items = [[rng.pick(sorted(menu)), 1]]
-        if entry == 'update_kw' or entry == 'ctor_kw':
+        if entry in ('update_kw', 'ctor_kw', 'update_map_kw', 'ctor_map_kw'):
             if any(not k.isidentifier() for k, _ in items):
-                entry = 'update_map' if entry == 'update_kw' else 'ctor_map'
+                entry = 'update_map' if entry.startswith('update') \
+                    else 'ctor_map'
         k0, v0 = items[0] if not invalid else [badk, 1]
         fn = None
         if entry == 'setitem':
@@ -1813,6 +1821,17 @@ class Machine:
         elif entry == 'update_map':
             fn = lambda: d.update(dict(items))  # noqa
             desc = f'update({[k for k, _ in items]})'
+        elif entry in ('update_map_kw', 'ctor_map_kw'):
+            # a mapping AND keyword arguments in one call; the keyword part
+            # holds the later items (so the bad key, if any, may be in either)
+            cut = rng.randint(0, len(items))
+            first, second = dict(items[:cut]), dict(items[cut:])
+            if entry == 'update_map_kw':
+                fn = lambda: d.update(first, **second)  # noqa
+            else:
+                fn = lambda: Cls(first, **second)  # noqa
+            desc = (f'{entry}({[k for k in first]}, '
+                    f'**{[k for k in second]})')
         elif entry == 'update_meta':
             other = {k: v for k, v in items}
             fn = lambda: d.update(other, **{})  # noqa
